@@ -20,12 +20,28 @@
 (* `diverged` mode, where only the clauses that need no reference are        *)
 (* evaluated, and ends with the verdict "drift:...".                         *)
 (*                                                                           *)
+(* A trace is a history of up to MaxTerms objects that are alive at the same  *)
+(* time: every event may name the terminal it was executed on (field t,      *)
+(* default 1), the events of different terminals are interleaved in the      *)
+(* order in which they were executed, and the specification keeps one set of *)
+(* reference states, one observed grid and one last observation per          *)
+(* terminal.  Terminals share nothing: an event of terminal t advances and   *)
+(* is compared with the reference of t only, so an implementation in which   *)
+(* one object influences another cannot follow the trace specification.      *)
+(*                                                                           *)
 (* event kinds (field k):                                                    *)
 (*   "op"   m (python method), op (action of Screen), a (int arguments),     *)
-(*          ch (cell class or ""), obs                                       *)
+(*          ch (cell class or ""), obs; optional rej: the argument is one    *)
+(*          the screen rejects - "bytes" (bytes on an encoding=None screen,  *)
+(*          documented TypeError) or "decode" (bytes that are invalid in the *)
+(*          screen's encoding under strict error handling): a rejected       *)
+(*          operation changes nothing (Screen!RejectedS)                     *)
 (*   "acc"  m (accessor), a (int arguments), cur, ret (projected value), obs *)
 (*   "feed" syms (symbols of AnsiFsm fed by one write), obs                  *)
 (*   "part" syms (leading symbols of a long write; no observation)           *)
+(*   "same" t, u: the inputs of terminals t and u were the same symbols, cut *)
+(*          into pieces (and interleaved with other terminals) differently:  *)
+(*          their last observations must be equal (C18: chunk independence)  *)
 (* obs: raised ("" or exception class), nrows, cellsok, rows (<<index, row>>  *)
 (*      pairs: rows that differ from the previous observation), cur, saved,  *)
 (*      region, fsm, stack                                                   *)
@@ -34,20 +50,38 @@ EXTENDS AnsiFsm, Json, IOUtils, TLCExt
 Traces == JsonDeserialize(IOEnv.TRACE_FILE)
 Chars3 == {" ", "x", "y"}
 
-VARIABLES tid, l, verdict, poss, obsGrid, diverged
-tvars == <<grid, cur, saved, region, fsm, stack, tid, l, verdict, poss, obsGrid, diverged>>
+MaxTerms == 6
+Terms == 1..MaxTerms
+
+VARIABLES tid, l, verdict,
+          possT,      \* terminal -> set of reference states its inputs allow
+          obsGridT,   \* terminal -> grid as last observed
+          lastT,      \* terminal -> last observation (cursor, saved cursor, region, parser)
+          dv,         \* terminals that have left the reference (C18 only)
+          diverged    \* dv # {} and no clause of the property has failed: the trace goes on
+tvars == <<grid, cur, saved, region, fsm, stack, tid, l, verdict, possT, obsGridT, lastT, dv, diverged>>
 \* grid .. stack are not used by the trace specification (the reference states live in poss)
 Idle == UNCHANGED <<grid, cur, saved, region, fsm, stack>>
 
 Ev == Traces[tid].ev
 E  == Ev[l]
 Has(k) == l <= Len(Ev) /\ (verdict = "ok" \/ diverged) /\ E.k = k
+\* the terminal of the current event, and its part of the state
+Tm == IF "t" \in DOMAIN E THEN E.t ELSE 1
+poss == possT[Tm]
+obsGrid == obsGridT[Tm]
 
 A0 == [scr |-> InitState, fsm |-> "INIT", mem |-> <<>>]
 BlankRows == [r \in RowIdx |-> [c \in ColIdx |-> Blank]]
 
+Last0 == [cur |-> <<1, 1>>, saved |-> <<1, 1>>, region |-> <<1, Rows>>, fsm |-> "INIT", stack |-> <<>>, memhead |-> TRUE]
+LastOf(o) == [cur |-> o.cur, saved |-> o.saved, region |-> o.region, fsm |-> o.fsm, stack |-> o.stack, memhead |-> o.memhead]
+Fresh == /\ possT' = [t \in Terms |-> {A0}] /\ obsGridT' = [t \in Terms |-> BlankRows]
+         /\ lastT' = [t \in Terms |-> Last0] /\ dv' = {} /\ diverged' = FALSE
 TInit == /\ SInit /\ fsm = "INIT" /\ stack = <<>>
-         /\ tid = 1 /\ l = 1 /\ verdict = "ok" /\ poss = {A0} /\ obsGrid = BlankRows /\ diverged = FALSE
+         /\ tid = 1 /\ l = 1 /\ verdict = "ok"
+         /\ possT = [t \in Terms |-> {A0}] /\ obsGridT = [t \in Terms |-> BlankRows]
+         /\ lastT = [t \in Terms |-> Last0] /\ dv = {} /\ diverged = FALSE
 
 FirstFailing(cs) == LET bad == {i \in 1..Len(cs) : ~cs[i][1]} IN
                     IF bad = {} THEN "ok" ELSE cs[CHOOSE i \in bad : \A j \in bad : i <= j][2]
@@ -102,11 +136,19 @@ TOp ==
   /\ Has("op")
   /\ LET o == E.obs
          P == "C19:" \o E.m
-         nexts == UNION {{[a EXCEPT !.scr = T] : T \in OpSet(a.scr, E.op, E.a, E.ch)} : a \in poss}
+         rej == IF "rej" \in DOMAIN E THEN E.rej ELSE ""
+         refused == rej # "" /\ o.raised # ""
+         \* a rejected argument that was taken after all (no exception where none is documented): some character was used
+         chs == IF rej = "" THEN {E.ch} ELSE Chars
+         nexts == IF refused THEN {[a EXCEPT !.scr = RejectedS(a.scr)] : a \in poss}
+                  ELSE UNION {{[a EXCEPT !.scr = S2] : S2 \in UNION {OpSet(a.scr, E.op, E.a, ch) : ch \in chs}} : a \in poss}
+         raisedOK == CASE rej = "bytes"  -> o.raised = "TypeError"
+                       [] rej = "decode" -> o.raised \in {"", "UnicodeDecodeError"}
+                       [] OTHER          -> o.raised = ""
          hit == IF ObsShapeOK(o) THEN {a \in nexts : a.scr = ObsScr(o)} ELSE {}
          w == CHOOSE a \in nexts : TRUE
          pre == (CHOOSE a \in poss : TRUE).scr
-         cs == << <<o.raised = "", P \o "-raised">>,
+         cs == << <<raisedOK, IF rej = "bytes" /\ o.raised = "" THEN P \o "-bytes-accepted" ELSE P \o "-raised">>,
                   <<ObsShapeOK(o), P \o "-shape">>,
                   <<hit # {} \/ ~ObsShapeOK(o) \/ \E a \in nexts : a.scr.grid = ObsGrid(o) \/ ~FrameBroken(pre, w.scr, ObsGrid(o)), P \o "-frame">>,
                   <<hit # {} \/ ~ObsShapeOK(o) \/ \E a \in nexts : a.scr.grid = ObsGrid(o), P \o "-effect">>,
@@ -116,9 +158,10 @@ TOp ==
                   <<hit # {}, P \o "-state">> >>
          v == FirstFailing(cs)
      IN /\ verdict' = v
-        /\ poss' = IF v = "ok" THEN hit ELSE poss
-        /\ obsGrid' = IF v = "ok" THEN ObsGrid(o) ELSE obsGrid
-  /\ l' = l + 1 /\ UNCHANGED <<tid, diverged>> /\ Idle
+        /\ possT' = [possT EXCEPT ![Tm] = IF v = "ok" THEN hit ELSE poss]
+        /\ obsGridT' = [obsGridT EXCEPT ![Tm] = IF v = "ok" THEN ObsGrid(o) ELSE obsGrid]
+        /\ lastT' = [lastT EXCEPT ![Tm] = LastOf(o)]
+  /\ l' = l + 1 /\ UNCHANGED <<tid, dv, diverged>> /\ Idle
 
 (* --------------------------- C19: accessors ------------------------------ *)
 AccVal(S, m, a) ==
@@ -139,9 +182,10 @@ TAcc ==
                   <<hit # {}, P \o "-changed-the-screen">> >>
          v == FirstFailing(cs)
      IN /\ verdict' = v
-        /\ poss' = IF v = "ok" THEN hit ELSE poss
-        /\ obsGrid' = IF v = "ok" THEN ObsGrid(o) ELSE obsGrid
-  /\ l' = l + 1 /\ UNCHANGED <<tid, diverged>> /\ Idle
+        /\ possT' = [possT EXCEPT ![Tm] = IF v = "ok" THEN hit ELSE poss]
+        /\ obsGridT' = [obsGridT EXCEPT ![Tm] = IF v = "ok" THEN ObsGrid(o) ELSE obsGrid]
+        /\ lastT' = [lastT EXCEPT ![Tm] = LastOf(o)]
+  /\ l' = l + 1 /\ UNCHANGED <<tid, dv, diverged>> /\ Idle
 
 (* ------------------------------ C18: feed -------------------------------- *)
 RECURSIVE FeedAll(_, _)
@@ -155,9 +199,10 @@ ObsMem(o) == [i \in 1..Len(o.stack) |-> Cap(o.stack[i])]
 TFeed ==
   /\ Has("feed")
   /\ LET o == E.obs
-         nexts == IF diverged THEN {} ELSE FeedAll(poss, E.syms)
+         tdiv == Tm \in dv
+         nexts == IF tdiv THEN {} ELSE FeedAll(poss, E.syms)
          hit == IF ObsShapeOK(o) THEN {a \in nexts : a.scr = ObsScr(o) /\ a.fsm = o.fsm /\ a.mem = ObsMem(o)} ELSE {}
-         completed == IF diverged THEN o.fsm = "INIT" ELSE \A a \in nexts : a.fsm = "INIT"
+         completed == IF tdiv THEN o.fsm = "INIT" ELSE \A a \in nexts : a.fsm = "INIT"
          cs == << <<o.raised = "", "C18:raised">>,
                   <<ObsShapeOK(o), "C18:shape">>,
                   <<ObsCursorOK(o), "C18:cursor">>,
@@ -169,28 +214,41 @@ TFeed ==
                 ELSE IF \A a \in nexts : a.fsm # o.fsm \/ a.mem # ObsMem(o) THEN "drift:parser" ELSE "drift:state"
      IN /\ verdict' = IF v # "ok" THEN v ELSE IF diverged THEN verdict ELSE IF hit = {} THEN why ELSE "ok"
         /\ diverged' = (v = "ok" /\ (diverged \/ hit = {}))
-        /\ poss' = IF v = "ok" /\ ~diverged /\ hit # {} THEN hit ELSE poss
-        /\ obsGrid' = IF v = "ok" /\ ObsShapeOK(o) THEN ObsGrid(o) ELSE obsGrid
+        /\ dv' = IF v = "ok" /\ hit = {} THEN dv \cup {Tm} ELSE dv
+        /\ possT' = [possT EXCEPT ![Tm] = IF v = "ok" /\ ~tdiv /\ hit # {} THEN hit ELSE poss]
+        /\ obsGridT' = [obsGridT EXCEPT ![Tm] = IF v = "ok" /\ ObsShapeOK(o) THEN ObsGrid(o) ELSE obsGrid]
+        /\ lastT' = [lastT EXCEPT ![Tm] = LastOf(o)]
   /\ l' = l + 1 /\ UNCHANGED tid /\ Idle
 
 \* a long write() is logged as several "part" events (symbols only) followed by the "feed" event that
 \* carries the observation: the reference advances, nothing can be compared in between
 TPart ==
   /\ Has("part")
-  /\ poss' = IF diverged THEN poss ELSE FeedAll(poss, E.syms)
-  /\ l' = l + 1 /\ UNCHANGED <<tid, verdict, obsGrid, diverged>> /\ Idle
+  /\ possT' = [possT EXCEPT ![Tm] = IF Tm \in dv THEN poss ELSE FeedAll(poss, E.syms)]
+  /\ l' = l + 1 /\ UNCHANGED <<tid, verdict, obsGridT, lastT, dv, diverged>> /\ Idle
+
+\* C18, chunk independence across terminals: terminal E.t and terminal E.u were given the same symbols - one of them
+\* in pieces, interleaved with the pieces of other terminals, the other at once - so what was last observed of them
+\* (screen, cursor, saved cursor, region, parser state and parameters) must be the same.  This clause needs no
+\* reference state: it also decides a trace that is in `diverged` mode.
+TSame ==
+  /\ Has("same")
+  /\ LET eq == obsGridT[E.t] = obsGridT[E.u] /\ lastT[E.t] = lastT[E.u]
+     IN /\ verdict' = IF eq THEN verdict ELSE "C18:chunking"
+        /\ diverged' = (eq /\ diverged)
+  /\ l' = l + 1 /\ UNCHANGED <<tid, possT, obsGridT, lastT, dv>> /\ Idle
 
 TNextTrace ==
   /\ (l > Len(Ev) \/ (verdict # "ok" /\ ~diverged))
   /\ PrintT(<<"VERDICT", tid, Traces[tid].id, verdict, l>>)
   /\ tid < Len(Traces)
-  /\ tid' = tid + 1 /\ l' = 1 /\ verdict' = "ok" /\ poss' = {A0} /\ obsGrid' = BlankRows /\ diverged' = FALSE
+  /\ tid' = tid + 1 /\ l' = 1 /\ verdict' = "ok" /\ Fresh
   /\ Idle
 
-TNext == TOp \/ TAcc \/ TFeed \/ TPart \/ TNextTrace
+TNext == TOp \/ TAcc \/ TFeed \/ TPart \/ TSame \/ TNextTrace
 TraceSpec == TInit /\ [][TNext]_tvars
 
 \* safety net: every reference state the inputs allow satisfies the invariants of the models
 \* (holds by construction; a violation is a bug of the specification, status 2)
-PossGood == \A a \in poss : GoodS(a.scr) /\ a.fsm \in States /\ (a.fsm = "INIT" => a.mem = <<>>)
+PossGood == \A t \in Terms : \A a \in possT[t] : GoodS(a.scr) /\ a.fsm \in States /\ (a.fsm = "INIT" => a.mem = <<>>)
 =============================================================================
